@@ -126,6 +126,16 @@ pub enum Motif {
         with_slider: bool,
         queen: bool,
     },
+    /// Castling is the mover's ONLY legal move: king and rook stand next to each other and swap
+    /// squares (Kf1/Rg1 short or Kd1/Rc1 long), everything else is blocked or covered.
+    CastleOnly {
+        black: bool,
+        long: bool,
+        cover_queen: bool,
+        cover_dist: u8,
+        /// drop one element of the cage (0 = complete cage), so that near misses occur too
+        drop: u8,
+    },
     /// King near an edge with a few enemy pieces close by: mates and stalemates.
     Net {
         black: bool,
@@ -644,6 +654,37 @@ fn apply_motif(b: &mut Builder, m: &Motif, h: &mut Hints) {
                 }
             }
         }
+        Motif::CastleOnly { black, long, cover_queen, cover_dist, drop } => {
+            let us = side_of(*black);
+            let them = us.other();
+            h.stm = Some(us);
+            h.rights_fixed[us.idx()] = true;
+            let br = us.back_rank();
+            let up = us.fwd();
+            // short: K f, R g, B h, pawn g2, enemy pawn g3, enemy rook/queen on the e-file
+            // long : K d, R c, B b, pawns a2 c2, enemy pawns a3 c3, enemy rook/queen on the e-file
+            let (kf, rf, bf, cover_file) = if *long { (3, 2, 1, 4) } else { (5, 6, 7, 4) };
+            b.put(kf, br, Kind::K, us);
+            if b.put(rf, br, Kind::R, us) {
+                h.rights.push((us, if *long { 1 } else { 0 }, rf as u8));
+            }
+            if *drop != 1 {
+                b.put(bf, br, Kind::B, us);
+            }
+            b.put(rf, br + up, Kind::P, us);
+            if *drop != 2 {
+                b.put(rf, br + 2 * up, Kind::P, them);
+            }
+            if *long {
+                b.put(0, br + up, Kind::P, us);
+                b.put(0, br + 2 * up, Kind::P, them);
+            }
+            if *drop != 3 {
+                b.put(cover_file, br + up * (4 + *cover_dist as i32 % 4), if *cover_queen { Kind::Q } else { Kind::R }, them);
+            }
+            // their king far away, off the e-file
+            b.put(if *long { 7 } else { 0 }, them.back_rank(), Kind::K, them);
+        }
         Motif::Net { black, ksq, pieces, enemy_k } => {
             let us = side_of(*black);
             let them = us.other();
@@ -793,6 +834,8 @@ fn arb_motif() -> impl Strategy<Value = Motif> {
             .prop_map(|(black, ksq, dir, dist, blocker_dist, slider_queen, blocker_kind, corner, boxed)| Motif::Battery { black, ksq, dir, dist, blocker_dist, slider_queen, blocker_kind, corner, boxed }),
         1 => (any::<bool>(), 0u8..6, any::<bool>(), 0u8..4, 0u8..4, 0u8..4, proptest::bool::weighted(0.75), any::<bool>())
             .prop_map(|(black, file, capturer_right, dir, dk, ds, with_slider, queen)| Motif::EpStalemate { black, file, capturer_right, dir, dk, ds, with_slider, queen }),
+        1 => (any::<bool>(), any::<bool>(), any::<bool>(), 0u8..4, prop_oneof![3 => Just(0u8), 1 => 1u8..4])
+            .prop_map(|(black, long, cover_queen, cover_dist, drop)| Motif::CastleOnly { black, long, cover_queen, cover_dist, drop }),
         1 => (any::<bool>(), any::<bool>(), 0u8..5, 0u8..2, any::<bool>(), 0u8..4)
             .prop_map(|(black, right_corner, d, kf, p3_right, blocker_kind)| Motif::BatteryStalemate { black, right_corner, d, kf, p3_right, blocker_kind }),
         1 => (any::<bool>(), 0u8..6, any::<[u8; 8]>(), vec((any::<u8>(), 0u8..32), 5), 0u8..8)
